@@ -138,7 +138,7 @@ func C01(c *vh.Ctx) {
 	c.Bound("S1_pattern_nodes_max", pmax)
 	c.Bound("S1_message_nodes_max", mmax)
 	c.Rule("S1: every (pattern,message,bindings) with |P|<=bound, |M|<=bound over atoms {1,2,\"a\",true,null}, keys {a,b}, variables " + fmt.Sprint(c01Vars) +
-		", bindings = {} / each variable x value list / each pair x short list. S2 (pattern-directed): every pattern with variables up to a larger bound over a two-letter alphabet (incl. inequality variables), every assignment of planted values / inequality bounds, messages = the instantiated pattern plus every combination of up to k edits (insertions of extra keys/elements incl. near-copies, atom changes, dropped keys, dropped or duplicated array elements), bindings = the inequality bounds plus nothing / each variable pre-bound to its planted value, to generalisations of it, or to conflicting values; the unedited core also wrapped 1-4 levels deep. S3 (wide arrays): pattern arrays of 2-5 structured elements with distinct variables (maps, arrays, mixed; with and without an array variable; bare and under a key) against message arrays with as many or one more ambiguous elements. Enumeration is an odometer (duplicate-free); non-trivial = Match returned >=1 binding set for a pattern that has variables.")
+		", bindings = {} / each variable x value list / each pair x short list. S2 (pattern-directed): every pattern with variables up to a larger bound over a two-letter alphabet (incl. inequality variables), every assignment of planted values / inequality bounds, messages = the instantiated pattern plus every combination of up to k edits (insertions of extra keys/elements incl. near-copies, atom changes, dropped keys, dropped or duplicated array elements), bindings = the inequality bounds plus nothing / each variable pre-bound to its planted value, to generalisations of it, or to conflicting values; the unedited core also wrapped 1-4 levels deep. S3 (wide arrays): pattern arrays of 2-5 structured elements with distinct variables (maps, arrays, mixed; with and without an array variable; bare and under a key) against message arrays with as many or one more ambiguous elements. S4 (look-alikes): scalars of different JSON types that print alike (1 / \"1\", true / \"true\", null / \"null\", 0 / false / \"\") as array members, map values, property-variable values and bound values. Enumeration is an odometer (duplicate-free); non-trivial = Match returned >=1 binding set for a pattern that has variables.")
 	pats := ps.UpTo(pmax)
 	msgs := ms.UpTo(mmax)
 	if c.Shard == 0 {
@@ -162,6 +162,13 @@ func C01(c *vh.Ctx) {
 		}
 	}
 	c01S2(c)
+	// S4: scalars of different types that print alike
+	for i, cs := range lookAlikeCases() {
+		if c.Mine(uint64(i)) {
+			soundOne(c, cs, true)
+			c.Count("S4_evaluations", 1)
+		}
+	}
 	// S3: wide arrays - several structured pattern elements competing for several ambiguous message elements
 	for i, cs := range wideArrayCases() {
 		if c.Mine(uint64(i)) {
@@ -209,6 +216,42 @@ func wideArrayCases() []matchCase {
 						out = append(out, matchCase{P: pa, M: ma, B: M{"?a": float64(n)}})
 					}
 				}
+			}
+		}
+	}
+	return out
+}
+
+// lookAlikeCases: scalars of different JSON types that print alike (1 and "1", true and "true", null and
+// "null", 0 and false and "") as array members, map values and bound values - strict typing is part of
+// "scalars equal".
+func lookAlikeCases() []matchCase {
+	atoms := []interface{}{1.0, "1", true, "true", nil, "null", 0.0, false, "", "a"}
+	var out []matchCase
+	for i, a := range atoms {
+		for j, b := range atoms {
+			if i == j {
+				continue
+			}
+			ma2 := []interface{}{a, b}
+			out = append(out,
+				matchCase{P: []interface{}{a, "?x"}, M: ma2, B: M{}},
+				matchCase{P: []interface{}{"?x"}, M: ma2, B: M{}},
+				matchCase{P: []interface{}{a}, M: []interface{}{b}, B: M{}},
+				matchCase{P: []interface{}{a, b}, M: ma2, B: M{}},
+				matchCase{P: []interface{}{b, a}, M: ma2, B: M{}},
+				matchCase{P: M{"k": a}, M: M{"k": b}, B: M{}},
+				matchCase{P: M{"k": "?x", "l": "?x"}, M: M{"k": a, "l": b}, B: M{}},
+				matchCase{P: M{"k": "?x"}, M: M{"k": a}, B: M{"?x": b}},
+				matchCase{P: M{"k": []interface{}{"?x", a}}, M: M{"k": []interface{}{a, b, "z"}}, B: M{}},
+				matchCase{P: []interface{}{"?x"}, M: ma2, B: M{"?x": a}},
+				matchCase{P: M{"?k": a}, M: M{"p": a, "q": b}, B: M{}},
+			)
+			for k, c3 := range atoms {
+				if k == i || k == j {
+					continue
+				}
+				out = append(out, matchCase{P: []interface{}{a, "?x"}, M: []interface{}{a, b, c3}, B: M{}}, matchCase{P: []interface{}{a, b}, M: []interface{}{b, c3, a}, B: M{}})
 			}
 		}
 	}
